@@ -218,28 +218,45 @@ Proof.
     apply in_map_iff in H2. destruct H2 as [y [E2 _]]. inversion E1; inversion E2; subst. reflexivity.
 Qed.
 
-Lemma firstn_perm_NoDup : forall (p : list nat) n s, Permutation p (seq 0 n) -> NoDup (firstn s p).
+(* the kept numbers are distinct, not among those seen before, and come from the draws *)
+Lemma first_distinct_spec : forall draws s seen,
+  NoDup (first_distinct s draws seen)
+  /\ (forall v, In v (first_distinct s draws seen) -> In v draws /\ ~ In v seen)
+  /\ length (first_distinct s draws seen) <= s.
 Proof.
-  intros p n s H. assert (Hnd : NoDup p) by (eapply Permutation_NoDup; [apply Permutation_sym; exact H|apply seq_NoDup]).
-  rewrite <- (firstn_skipn s p) in Hnd. eapply NoDup_app_l. exact Hnd.
+  induction draws as [|v r IH]; intros s seen; cbn [first_distinct].
+  - split; [constructor|split; [intros v []|cbn; lia]].
+  - destruct s as [|s']; [split; [constructor|split; [intros w []|cbn; lia]]|].
+    destruct (existsb (Nat.eqb v) seen) eqn:E.
+    + destruct (IH (S s') seen) as [H1 [H2 H3]]. split; [exact H1|split; [|exact H3]].
+      intros w Hw. split; [right; apply H2; exact Hw|apply H2; exact Hw].
+    + destruct (IH s' (v :: seen)) as [H1 [H2 H3]].
+      assert (Hv : ~ In v seen).
+      { intros Hin. assert (existsb (Nat.eqb v) seen = true) by (apply existsb_exists; exists v; split; [exact Hin|apply Nat.eqb_refl]). congruence. }
+      split; [|split].
+      * constructor; [|exact H1]. intros Hin. apply H2 in Hin. destruct Hin as [_ Hn]. apply Hn. left. reflexivity.
+      * intros w Hw. destruct Hw as [<-|Hw].
+        -- split; [left; reflexivity|exact Hv].
+        -- apply H2 in Hw. destruct Hw as [Hd Hn]. split; [right; exact Hd|]. intros Hin. apply Hn. right. exact Hin.
+      * cbn [length]. lia.
 Qed.
 
-Theorem conv_unique_ok : forall P s perm, s <= P * (P - 1) / 2 ->
-  Permutation perm (seq 0 (length (triu P))) -> s <= length (triu P) ->
-  exists ps, conv_unique_pairs P s perm = Some ps /\ length ps = s /\ NoDup ps /\
+Theorem conv_unique_ok : forall P s draws, s <= P * (P - 1) / 2 ->
+  Forall (fun v => v < length (triu P)) draws ->
+  length (first_distinct s draws []) = s ->          (* the draws contained s distinct numbers: the sampling loop has ended *)
+  exists ps, conv_unique_pairs P s draws = Some ps /\ length ps = s /\ NoDup ps /\
     forall p, In p ps -> fst p < snd p /\ snd p < P.
 Proof.
-  intros P s perm Hs Hp Hlen. unfold conv_unique_pairs.
+  intros P s draws Hs Hb Hlen. unfold conv_unique_pairs.
   assert (s <=? P * (P - 1) / 2 = true) as -> by (apply Nat.leb_le; exact Hs).
+  destruct (first_distinct_spec draws s []) as [Hnd [Hin _]].
+  assert (Hlt : forall z, In z (first_distinct s draws []) -> z < length (triu P)).
+  { intros z Hz. rewrite Forall_forall in Hb. apply Hb. apply Hin. exact Hz. }
   eexists. split; [reflexivity|]. split; [|split].
-  - rewrite map_length. apply firstn_length_le. apply Permutation_length in Hp. rewrite seq_length in Hp. lia.
-  - apply NoDup_map_inj; [|eapply firstn_perm_NoDup; exact Hp].
-    intros x y Hx Hy E.
-    assert (Hb : forall z, In z (firstn s perm) -> z < length (triu P)).
-    { intros z Hz. eapply perm_seq_bound; [exact Hp|]. rewrite <- (firstn_skipn s perm). apply in_or_app. left. exact Hz. }
-    apply (proj1 (NoDup_nth (triu P) (0, 0)) (triu_NoDup P)); [apply Hb; exact Hx|apply Hb; exact Hy|exact E].
-  - intros p Hin. apply in_map_iff in Hin. destruct Hin as [t [<- Ht]]. apply in_triu. apply nth_In.
-    eapply perm_seq_bound; [exact Hp|]. rewrite <- (firstn_skipn s perm). apply in_or_app. left. exact Ht.
+  - rewrite map_length. exact Hlen.
+  - apply NoDup_map_inj; [|exact Hnd]. intros x y Hx Hy E. unfold unrank in E.
+    apply (proj1 (NoDup_nth (triu P) (0, 0)) (triu_NoDup P)); [apply Hlt; exact Hx|apply Hlt; exact Hy|exact E].
+  - intros p Hp. apply in_map_iff in Hp. destruct Hp as [t [<- Ht]]. unfold unrank. apply in_triu. apply nth_In. apply Hlt. exact Ht.
 Qed.
 
 Theorem conv_unique_rejects : forall P s perm, P * (P - 1) / 2 < s -> conv_unique_pairs P s perm = None.
@@ -316,4 +333,37 @@ Proof.
     - apply IH; [inversion Hpos; assumption|exact E2|discriminate]. }
   pose proof (Nat.div_mod_eq i p) as Hi. pose proof (Nat.div_mod_eq j p) as Hj.
   rewrite E1, Em in Hi. lia.
+Qed.
+
+(* ---- the arithmetic of unranking: row i of the strict upper triangle starts at number i (2P - i - 1) / 2, so the pair of
+   number v is (i, v - start i + i + 1) for the row i with start i <= v < start (i + 1) — what the sampler computes with an
+   integer square root and two correcting loops *)
+Definition row_start (P i : nat) : nat := i * (2 * P - i - 1) / 2.
+
+Lemma row_start_S : forall P i, i < P -> row_start P (S i) = row_start P i + (P - S i).
+Proof.
+  intros P i H. unfold row_start.
+  assert (E : S i * (2 * P - S i - 1) = i * (2 * P - i - 1) + (P - S i) * 2) by nia.
+  rewrite E. rewrite Nat.div_add by lia. reflexivity.
+Qed.
+
+Lemma triu_rows_length : forall P i, i <= P ->
+  length (flat_map (fun i => map (fun j => (i, j)) (seq (S i) (P - S i))) (seq 0 i)) = row_start P i.
+Proof.
+  intros P i. induction i as [|i IH]; intros Hi; [reflexivity|].
+  rewrite seq_S, flat_map_app, app_length, IH by lia. cbn [flat_map]. rewrite app_nil_r, map_length, seq_length.
+  rewrite row_start_S by lia. reflexivity.
+Qed.
+
+Theorem unrank_arith : forall P i v, i < P -> row_start P i <= v < row_start P (S i) ->
+  unrank P v = (i, v - row_start P i + i + 1).
+Proof.
+  intros P i v Hi [Hlo Hhi]. unfold unrank, triu.
+  assert (Hsplit : seq 0 P = seq 0 i ++ i :: seq (S i) (P - S i)).
+  { replace P with (i + (P - i)) at 1 by lia. rewrite seq_app. cbn [plus]. replace (P - i) with (S (P - S i)) by lia. reflexivity. }
+  rewrite Hsplit, flat_map_app. rewrite app_nth2; rewrite triu_rows_length by lia; [|lia].
+  cbn [flat_map]. rewrite row_start_S in Hhi by exact Hi.
+  rewrite app_nth1 by (rewrite map_length, seq_length; lia).
+  rewrite (nth_indep _ (0, 0) ((fun j => (i, j)) 0)) by (rewrite map_length, seq_length; lia).
+  rewrite map_nth. rewrite seq_nth by lia. f_equal. lia.
 Qed.
